@@ -680,6 +680,17 @@ package core
 //@ nobody
 //@ assert before call (*txNoncer).set: [refreshed-to-one-above-last-pending] a0 == pool.pendingNonces && a1 == addr && a2 == wrap64(c20Nonce(txs[len(txs) - 1]) + 1)
 
+// scheduleReorgLoop: a goroutine `for { select { … } }` over channels — receives, sends, `go` are not modelled, the body is NOT verified (`nobody`).
+// THIN guard on the one sequential fact of "head changes never corrupt these views" in it: when a reset request is folded into one that is
+// already waiting, the waiting request takes the NEW head of the request just received and keeps its own (oldest) old head.
+//@ ghost var c20OldHeadKept: *types.Header
+//@ func (*TxPool).scheduleReorgLoop props C20
+//@ nobody
+//@ modifies all, c20OldHeadKept
+//@ ghost before store newHead#1: c20OldHeadKept := reset.oldHead
+//@ assert after store newHead#1: [coalesced-reset-takes-newest-head] reset.newHead == req.newHead
+//@ assert after store newHead#1: [coalesced-reset-keeps-oldest-head] reset.oldHead == c20OldHeadKept
+
 //@ func (*TxPool).add props C20
 //@ requires [nonnil] pool != nil && c20TxOK(tx) && pool.pending != nil && pool.queue != nil && pool.all != nil && pool.all.all != nil && pool.priced != nil && pool.priced.items != nil &&
 //@     pool.currentState != nil && pool.locals != nil && pool.locals.accounts != nil && pool.gasPrice != nil && pool.router != nil
